@@ -144,9 +144,13 @@ class ScalarFunction:
             def update_grad():
                 self._update_fun()
                 self.ngev += 1
-                self.g = approx_derivative(
+                g = approx_derivative(
                     fun_wrapped, self.x, f0=self.f, **finite_diff_options
                 )
+                # a variable with equal bounds cannot be perturbed (its difference
+                # quotient is 0/0 = nan) and cannot move: report a zero derivative
+                lb, ub = finite_diff_options["bounds"]
+                self.g = np.where(np.asarray(lb) == np.asarray(ub), 0.0, g)
 
         self._update_grad_impl = update_grad
 
